@@ -56,17 +56,31 @@ Theorem C01_convert_range : forall dst v, intlike dst = true -> c_in_range dst (
 Proof. exact convert_range. Qed.
 Print Assumptions C01_convert_range.
 
-(* not maintained: a 1- or 2-byte integer converted to a floating type is not re-extended (finding
-   subint-to-float-unextended): the result depends on bits that do not belong to the value *)
-Theorem C01_convert_subint_float_refuted :
-  forall fo : fops,
-  wrapk Ks (f_cvt fo Cswtof false 300) <> wrapk Ks (f_cvt fo Cswtof false 44) ->
-  exists x1 x2 v, repr (SInt I1 true) v x1 /\ repr (SInt I1 true) v x2 /\ c_in_range (SInt I1 true) v /\
-    convert_steps SFlt (SInt I1 true) = [step1 (Ocvt Cswtof) Ks] /\
-    eval_pure fo (PM.add 1%positive (Kw, x1) (PM.empty _)) (Ocvt Cswtof) Ks (RTmp 1%positive) None <>
-    eval_pure fo (PM.add 1%positive (Kw, x2) (PM.empty _)) (Ocvt Cswtof) Ks (RTmp 1%positive) None.
-Proof. exact convert_subint_float_not_invariant. Qed.
-Print Assumptions C01_convert_subint_float_refuted.
+(* integer to floating point: floating-point arithmetic is a parameter of the IL semantics, so the statement is that
+   the conversion instruction receives the value's two's complement pattern in a whole word (a char/short source
+   is extended first - the fix of subint-to-float-unextended): the result depends on the C value alone *)
+Theorem C01_convert_int_float_exact :
+  forall fo dst src env m l n x v,
+  sfloat dst = true -> intlike src = true -> ref_lt n l ->
+  read env (qbase src) l = Ok x -> 0 <= x < modk (qbase src) ->
+  repr src v x -> c_in_range src v ->
+  exists env' x',
+    exec fo (env, m) (snd (fst (convert dst src l n))) = Ok (env', m) /\
+    read env' (qbase dst) (fst (fst (convert dst src l n))) = Ok x' /\
+    0 <= x' < modk (qbase dst) /\
+    x' = wrapk (qbase dst) (f_cvt fo (cvt_of src) (wide (qbase dst)) (word_of src v)) /\
+    agree_below n env env' /\
+    ref_lt (snd (convert dst src l n)) (fst (fst (convert dst src l n))) /\
+    (n <= snd (convert dst src l n))%positive.
+Proof. exact convert_int_float_exact. Qed.
+Print Assumptions C01_convert_int_float_exact.
+
+Example C01_convert_subint_float_example :
+  convert_steps SFlt (SInt I1 true) = [step1 (Oext Esb) Kw; step1 (Ocvt Cswtof) Ks] /\
+  convert_steps SDbl (SInt I2 false) = [step1 (Oext Euh) Kw; step1 (Ocvt Cuwtof) Kd] /\
+  convert_steps SDbl (SInt I4 true) = [step1 (Ocvt Cswtof) Kd] /\
+  repr (SInt I1 true) 44 300 /\ word_of (SInt I1 true) 44 = 44.
+Proof. exact convert_subint_float_example. Qed.
 
 Example C01_convert_nonvacuous :
   repr (SInt I1 true) (-1) 767 /\ c_in_range (SInt I1 true) (-1) /\
@@ -159,7 +173,8 @@ Theorem C01_bits_store_correct :
                       (ext_unit (ssigned t) (sbits t) (bitsk (qbase t)) u)) = Some m' /\
     mem_load m' a (Z.to_nat (ssize t)) = Some (new_unit t before after v u) /\
     read env' (qbase t) (fst (fst (funcstore t addr before after vr n))) = Ok x /\
-    x = fb_val (ssigned t) (bitsk (qbase t)) (sbits t) before after (wrap (bitsk (qbase t)) (v * 2 ^ before)) /\
+    x = fb_val (ssigned t) (bitsk (qbase t)) (sbits t) before after
+               (store_reg t after (wrap (bitsk (qbase t)) (v * 2 ^ before))) /\
     agree_below n env env' /\ (n <= snd (funcstore t addr before after vr n))%positive.
 Proof. exact bits_store_correct. Qed.
 Print Assumptions C01_bits_store_correct.
@@ -176,26 +191,25 @@ Theorem C01_bitfield_load_store :
 Proof. exact bitfield_load_store. Qed.
 Print Assumptions C01_bitfield_load_store.
 
-(* the value of the assignment expression itself *)
-Theorem C01_bits_store_value_partial :
-  forall t before after v u,
-  bf_pos t before after -> 0 <= u < 2 ^ sbits t -> 0 <= v < modk (qbase t) ->
-  (after <> 0 \/ 4 <= ssize t) ->
-  let x := fb_val (ssigned t) (bitsk (qbase t)) (sbits t) before after (wrap (bitsk (qbase t)) (v * 2 ^ before)) in
-  reg_value t x = bf_value (ssigned t) (ssize t) before after v.
+(* the value of the assignment expression itself (the register x of C01_bits_store_correct): the assigned value
+   reduced to the member's width, at every position - since the fix of bitfield-assign-value-subword-top *)
+Theorem C01_bits_store_value :
+  forall t before after v,
+  bf_pos t before after -> 0 <= v < modk (qbase t) ->
+  let x := fb_val (ssigned t) (bitsk (qbase t)) (sbits t) before after
+                  (store_reg t after (wrap (bitsk (qbase t)) (v * 2 ^ before))) in
+  0 <= x < modk (qbase t) /\ reg_value t x = bf_value (ssigned t) (ssize t) before after v.
 Proof. exact bits_store_value. Qed.
-Print Assumptions C01_bits_store_value_partial.
+Print Assumptions C01_bits_store_value.
 
-(* ... is wrong when the member ends at the top of a 1- or 2-byte unit (finding bitfield-assign-value-subword-top) *)
-Theorem C01_bits_store_value_refuted :
-  exists t before after v,
-    bf_pos t before after /\ 0 <= v < modk (qbase t) /\
-    reg_value t (fb_val (ssigned t) (bitsk (qbase t)) (sbits t) before after (wrap (bitsk (qbase t)) (v * 2 ^ before)))
-      <> bf_value (ssigned t) (ssize t) before after v /\
-    ~ repr t (bf_value (ssigned t) (ssize t) before after v)
-        (fb_val (ssigned t) (bitsk (qbase t)) (sbits t) before after (wrap (bitsk (qbase t)) (v * 2 ^ before))).
-Proof. exact bits_store_value_refuted. Qed.
-Print Assumptions C01_bits_store_value_refuted.
+(* `struct { signed char a : 3, f : 5; } s; (s.f = 100)` is 4; without the extension it was 100 *)
+Example C01_bits_store_value_top :
+  let t := SInt I1 true in
+  bf_pos t 3 0 /\ store_top t 0 = true /\
+  reg_value t (fb_val (ssigned t) (bitsk (qbase t)) (sbits t) 3 0 (store_reg t 0 (wrap (bitsk (qbase t)) (100 * 2 ^ 3)))) = 4 /\
+  bf_value true 1 3 0 100 = 4 /\
+  reg_value t (fb_val (ssigned t) (bitsk (qbase t)) (sbits t) 3 0 (wrap (bitsk (qbase t)) (100 * 2 ^ 3))) = 100.
+Proof. exact bits_store_value_top. Qed.
 
 Example C01_bitfield_nonvacuous :
   bf_pos (SInt I4 true) 3 20 /\
